@@ -363,7 +363,22 @@ class XsiType(Family):
    </xs:restriction>
   </xs:complexContent>
  </xs:complexType>
+ <xs:complexType name="Other">
+  <xs:sequence><xs:element name="o" type="xs:string" minOccurs="0"/></xs:sequence>
+ </xs:complexType>
  <xs:element name="x" type="t:Base"/>
+ <xs:element name="root4">
+  <xs:complexType><xs:sequence>
+    <xs:element name="grp" maxOccurs="unbounded">
+     <xs:complexType><xs:sequence><xs:element ref="t:x" maxOccurs="unbounded"/></xs:sequence></xs:complexType>
+     <xs:unique name="u4"><xs:selector xpath=".//t:y"/><xs:field xpath="@v"/></xs:unique>
+     <xs:unique name="u4n"><xs:selector xpath="t:x"/><xs:field xpath="@n"/></xs:unique>
+    </xs:element>
+    <xs:element name="misc" minOccurs="0">
+     <xs:complexType><xs:sequence><xs:element ref="t:x" maxOccurs="unbounded"/></xs:sequence></xs:complexType>
+    </xs:element>
+  </xs:sequence></xs:complexType>
+ </xs:element>
  <xs:element name="root1">
   <xs:complexType><xs:sequence><xs:element ref="t:x" maxOccurs="unbounded"/></xs:sequence></xs:complexType>
   <xs:unique name="u1"><xs:selector xpath=".//t:y"/><xs:field xpath="@v"/></xs:unique>
@@ -385,6 +400,8 @@ class XsiType(Family):
         out = [_decl(), f'<t:{root} xmlns:t="urn:xt" xmlns:xsi="http://www.w3.org/2001/XMLSchema-instance">\n']
         for x in xs:
             ty = f' xsi:type="{x["type"]}"' if x.get('type') else ''
+            if x.get('n'):
+                ty += f' n="{x["n"]}"'
             out.append(f' <t:{child}{ty}>')
             if x.get('a'):
                 out.append('<t:a>q</t:a>')
@@ -394,6 +411,23 @@ class XsiType(Family):
                 out.append(f'<t:z v="{v}"/>')
             out.append(f'</t:{child}>\n')
         out.append(f'</t:{root}>\n')
+        return ''.join(out)
+
+    def _x(self, x):
+        ty = f' xsi:type="{x["type"]}"' if x.get('type') else ''
+        if x.get('n'):
+            ty += f' n="{x["n"]}"'
+        s = f'<t:x{ty}>' + ('<t:a>q</t:a>' if x.get('a') else '')
+        s += ''.join(f'<t:y v="{v}"/>' for v in x.get('y', ())) + ''.join(f'<t:z v="{v}"/>' for v in x.get('z', ()))
+        return s + '</t:x>'
+
+    def _grpdoc(self, groups, misc):
+        out = [_decl(), '<t:root4 xmlns:t="urn:xt" xmlns:xsi="http://www.w3.org/2001/XMLSchema-instance">\n']
+        for g in groups:
+            out.append(' <t:grp>' + ''.join(self._x(x) for x in g) + '</t:grp>\n')
+        if misc:
+            out.append(' <t:misc>' + ''.join(self._x(x) for x in misc) + '</t:misc>\n')
+        out.append('</t:root4>\n')
         return ''.join(out)
 
     def docs(self, rng):
@@ -417,6 +451,22 @@ class XsiType(Family):
             Doc('xt-r1-abstract', D('root1', [{'type': 't:Abs'}]), 'fault:abstract'),
             Doc('xt-r1-unknown', D('root1', [{'type': 't:Nope'}]), 'fault:unknown-type'),
             Doc('xt-r1-y-without-type', D('root1', [{'y': [1]}]), 'fault:structure'),
+            Doc('xt-r1-notderived', D('root1', [{'type': 't:Other'}]), 'fault:not-derived'),
+            Doc('xt-r2-notderived', D('root2', [{'a': 1}, {'type': 't:Other'}]), 'fault:not-derived'),
+        ]
+        G = self._grpdoc
+        out += [
+            Doc('xt-r4-plain', G([[{'a': 1, 'n': 'p'}]], [])),
+            Doc('xt-r4-misc-D', G([[{'a': 1}]], [{'type': 't:D', 'y': [1, 2]}])),          # type met out of scope
+            Doc('xt-r4-misc-D-dupout', G([[{}]], [{'type': 't:D', 'y': [3, 3]}])),         # dup outside the scope: valid
+            Doc('xt-r4-grp-D', G([[{'type': 't:D', 'y': [1, 2]}], [{'type': 't:D', 'y': [1]}]], [])),
+            Doc('xt-r4-grp-D-dup', G([[{'type': 't:D', 'y': [7, 7]}]], []), 'fault:dup-unique'),
+            Doc('xt-r4-grp-E-dup', G([[{'a': 1}], [{'type': 't:E', 'y': [4], 'z': [1]}, {'type': 't:E', 'y': [4]}]], []),
+                'fault:dup-unique'),
+            Doc('xt-r4-n-dup-typed', G([[{'type': 't:D', 'n': 'k', 'y': [1]}, {'type': 't:D', 'n': 'k'}]], []),
+                'fault:dup-unique'),
+            Doc('xt-r4-n-dup-plain', G([[{'n': 'k'}, {'n': 'k'}]], []), 'fault:dup-unique'),
+            Doc('xt-r4-n-ok-typed', G([[{'type': 't:D', 'n': 'a', 'y': [1]}, {'n': 'b'}]], [{'n': 'a'}])),
         ]
         # larger randomised ones
         for k in range(3):
@@ -952,6 +1002,33 @@ class Multi2(Family):
         ]
 
 
+class Shadow(Family):
+    """Local declarations that share a name with a global element of another type."""
+    name = 'shadow'
+    paths = ('code', 'box/code')
+
+    def sources(self, version):
+        return {'shadow.xsd': f'''<xs:schema {XS}>
+ <xs:element name="code" type="xs:int"/>
+ <xs:element name="box"><xs:complexType><xs:sequence>
+   <xs:element name="code" type="xs:date" maxOccurs="unbounded"/></xs:sequence></xs:complexType></xs:element>
+ <xs:element name="root">
+  <xs:complexType><xs:sequence>
+   <xs:element name="code" type="xs:string" maxOccurs="unbounded"/>
+   <xs:element ref="box" minOccurs="0" maxOccurs="unbounded"/>
+  </xs:sequence></xs:complexType>
+ </xs:element>
+</xs:schema>'''}
+
+    def docs(self, rng):
+        return [
+            Doc('sh-valid-a', _decl() + '<root><code>A1</code><code>007</code><code>B2</code></root>'),
+            Doc('sh-valid-b', _decl() + '<root><code>x</code><box><code>2020-01-01</code></box><box><code>2021-12-31</code><code>2000-02-29</code></box></root>'),
+            Doc('sh-bad-box', _decl() + '<root><code>x</code><box><code>12</code></box></root>', 'fault:lexical'),
+            Doc('sh-bad-extra', _decl() + '<root><code>x</code><bogus/></root>', 'fault:structure'),
+        ]
+
+
 class Big(Family):
     """Width-parameterised documents that cross the 16 KiB read size of iterparse."""
     name = 'big'
@@ -994,4 +1071,4 @@ class Big(Family):
 
 
 FAMILIES = {f.name: f for f in (Ids(), Keys(), XsiType(), Subst(), Fixed(), Wild(), Ns(), Mixed(),
-                                Assert11(), Recur(), Multi(), Multi2(), Big())}
+                                Assert11(), Recur(), Multi(), Multi2(), Shadow(), Big())}
